@@ -69,6 +69,13 @@ pub(crate) struct SessionConnectionActorX<S: ZmtpStdStream> {
   incoming_pipe_sender: Option<PipeMessageSender>,
   is_currently_congested: bool,
 
+  /// Set once the owning socket started closing with a non-zero LINGER: the instant the
+  /// linger period ends (inner `None` = no limit). Until then the session keeps transmitting.
+  linger_until: Option<Option<TokioInstant>>,
+  /// The socket has handed over all it had (Stop arrived while lingering): write out what is
+  /// buffered in the session, then shut the stream down.
+  flush_then_stop: bool,
+
   #[cfg(target_os = "linux")]
   cork_info: Option<crate::sessionx::cork::TcpCorkInfoX>,
   #[cfg(not(target_os = "linux"))]
@@ -154,6 +161,8 @@ where
       _connection_permit: connection_permit,
       incoming_pipe_sender: None,
       is_currently_congested: false,
+      linger_until: None,
+      flush_then_stop: false,
       cork_info,
     };
 
@@ -320,6 +329,20 @@ where
       let mut last_log_ms = 0u64;
 
       'operational: while self.current_phase == ConnectionPhaseX::Operational {
+        // Lingering close: stop once the period is over, or once the socket has nothing more
+        // to hand over and everything accepted so far has been written.
+        if let Some(until) = self.linger_until {
+          let expired = until.map_or(false, |t| TokioInstant::now() >= t);
+          let flushed = self.flush_then_stop
+            && core_carryover.is_empty()
+            && egress_buffer.is_empty()
+            && pending_vectored.is_empty();
+          if expired || flushed {
+            self.transition_to_shutdown_stream(None).await;
+            break 'operational;
+          }
+        }
+
         if !core_carryover.is_empty()
           && self.current_phase == ConnectionPhaseX::Operational
           && if use_owned_write {
@@ -439,6 +462,11 @@ where
           }
         }
 
+        let linger_expiry_future = match self.linger_until {
+          Some(Some(t)) => tokio::time::sleep_until(t).right_future(),
+          _ => futures::future::pending().left_future(),
+        };
+
         tokio::select! {
           biased;
 
@@ -451,6 +479,9 @@ where
               }
             }
           }
+
+          // Checked at the top of the loop.
+          _ = linger_expiry_future => {}
 
           maybe_event = self.system_event_receiver.recv() => {
             match maybe_event {
@@ -501,6 +532,10 @@ where
                     yield_now().await;
                   }
                 }
+              }
+              Err(_) if self.linger_until.is_some() => {
+                // The closing socket no longer takes input; keep flushing what it sent.
+                ingress_buffer.clear();
               }
               Err(e) => {
                 tracing::debug!(sca_handle = self.handle, error = %e, "Ingress pipe closed; shutting down.");
@@ -600,6 +635,7 @@ where
           // Outgoing from SocketCore.
           maybe_msgs_from_core = async { self.core_pipe_manager.recv_from_core().await },
             if self.current_phase == ConnectionPhaseX::Operational
+              && !self.flush_then_stop
               && self.core_pipe_manager.is_attached()
               && core_carryover.is_empty()
               && if use_owned_write {
@@ -842,7 +878,16 @@ where
       }
       Command::Stop => {
         tracing::info!(sca_handle = self.handle, "Received Stop command.");
-        self.transition_to_shutdown_stream(None).await;
+        // A closing socket sends Stop when its pipes are empty or its LINGER ran out. The
+        // closing event may still be unread on the bus, so look at the socket itself.
+        if self.linger_until.is_none() && !self.socket_logic.core().is_running() {
+          self.on_parent_closing().await;
+        }
+        if self.linger_until.is_some() && self.current_phase == ConnectionPhaseX::Operational {
+          self.flush_then_stop = true;
+        } else {
+          self.transition_to_shutdown_stream(None).await;
+        }
       }
       unexpected_cmd => {
         tracing::warn!(
@@ -858,12 +903,30 @@ where
     match event {
       SystemEvent::ContextTerminating => {
         tracing::info!(sca_handle = self.handle, "Received ContextTerminating.");
-        self.transition_to_shutdown_stream(None).await;
+        self.on_parent_closing().await;
       }
       SystemEvent::SocketClosing { socket_id } => {
         if socket_id == self.parent_socket_id {
-          self.transition_to_shutdown_stream(None).await;
+          self.on_parent_closing().await;
         }
+      }
+      _ => {}
+    }
+  }
+
+  /// The owning socket is closing. With LINGER 0, or before the connection carries traffic,
+  /// the stream is shut down at once; otherwise the session keeps writing what the socket
+  /// accepted until the socket sends Stop or the linger period ends.
+  async fn on_parent_closing(&mut self) {
+    if self.current_phase != ConnectionPhaseX::Operational {
+      self.transition_to_shutdown_stream(None).await;
+      return;
+    }
+    let linger = self.socket_logic.core().core_state.read().options.linger;
+    match linger {
+      Some(d) if d.is_zero() => self.transition_to_shutdown_stream(None).await,
+      _ if self.linger_until.is_none() => {
+        self.linger_until = Some(linger.map(|d| TokioInstant::now() + d));
       }
       _ => {}
     }
